@@ -142,8 +142,15 @@ func forgedMultiOffenders(rng *rand.Rand) []*Target {
 			out = append(out, &Target{Kind: "cert", ID: id, DER: der, Cert: cert})
 		}
 	}
+	skip := map[string]bool{}
+	for _, r := range strings.Split(os.Getenv("VERIF_MULTI_SKIP"), ",") {
+		skip[r] = true
+	}
 	// ---- kueku
 	for _, tpl := range kuekuTemplates(c, 1) {
+		if skip["kueku"] {
+			break
+		}
 		base, _ := forge.ParseCert(tpl.DER)
 		for _, r := range pl.KuEku {
 			if len(r.Ekus) < 2 {
@@ -172,6 +179,9 @@ func forgedMultiOffenders(rng *rand.Rand) []*Target {
 			continue
 		}
 		for _, rc := range pl.Others {
+			if skip[rc.R] {
+				continue
+			}
 			switch rc.R {
 			case "san-vary":
 				names := base.NamesOfExt("2.5.29.17")
@@ -196,6 +206,34 @@ func forgedMultiOffenders(rng *rand.Rand) []*Target {
 				ext := cc.FindExt("2.5.29.17")
 				forge.SetGeneralNames(ext, forge.GeneralNames(nn...))
 				add(fmt.Sprintf("forged:san-vary%d:%s", rc.N, o.ID), cc.Bytes())
+			case "san-case":
+				names := base.NamesOfExt("2.5.29.17")
+				var dns *forge.Node
+				var others []*forge.Node
+				for _, n := range names {
+					if n.Tag() == 0x82 && dns == nil && strings.Count(string(n.Body()), ".") >= 1 {
+						dns = n
+					} else if n.Tag() != 0x82 {
+						others = append(others, n)
+					}
+				}
+				if dns == nil || o.Cert.IsCA {
+					continue
+				}
+				up := strings.ToUpper(string(dns.Body()))
+				labels := strings.Split(string(dns.Body()), ".")
+				nn := []*forge.Node{forge.GN(0x82, []byte(up))}
+				for k := 1; k < rc.N; k++ {
+					l2 := append([]string{}, labels...)
+					l2[len(l2)-2] = varyN(l2[len(l2)-2], k)
+					nn = append(nn, forge.GN(0x82, []byte(strings.Join(l2, "."))))
+				}
+				cc := base.Clone()
+				forge.SetGeneralNames(cc.FindExt("2.5.29.17"), forge.GeneralNames(append(nn, others...)...))
+				if !forge.SetAttr(cc.Subject(), "2.5.4.3", 0x0c, []byte(up)) {
+					forge.AddAttr(cc.Subject(), forge.OID(2, 5, 4, 3), 0x0c, []byte(up))
+				}
+				add(fmt.Sprintf("forged:san-case%d:%s", rc.N, o.ID), cc.Bytes())
 			case "dup-ext":
 				exts := base.Exts()
 				if exts == nil || len(exts.Children) < rc.N {
